@@ -9,7 +9,7 @@ for p in props:
     pid = p['id']
     f = os.path.join(V, 'harness', 'c%s.py' % pid[1:])
     meta = None
-    if os.path.exists(f):
+    if os.path.exists(f) and pid in ready:
         src = open(f).read()
         tree = ast.parse(src)
         for n in tree.body:
